@@ -170,6 +170,9 @@ func (a *scriptActor) OnPrelaunch(ctx vivid.PrelaunchContext) error {
 			// by returning an error only: a panic in OnPrelaunch at spawn time is not recovered by the library and
 			// surfaces in the caller of ActorOf (the statement speaks of failure, i.e. the error return)
 			a.x.ev(map[string]any{"e": "Hook", "a": a.name, "k": "prelaunch-spawn", "v": 0})
+			// the hook has handed its reference to somebody who uses it at once (a registry, a monitor): the actor
+			// that is about to fail its pre-launch must still receive nothing
+			a.x.sys.Kill(ctx.Ref(), false, "kill during a failing pre-launch")
 			return errors.New("prelaunch failed at spawn")
 		}
 		return nil
